@@ -3,20 +3,26 @@ package driver
 import (
 	"runtime"
 	"strings"
+	"sync"
 	"time"
 )
 
 // IterProducers returns the number of live goroutines that are inside
 // gkvlite's iterator producer function, and their stacks.
+var stackBuf = make([]byte, 1<<16)
+var stackMu sync.Mutex
+
 func IterProducers() (int, string) {
-	buf := make([]byte, 1<<18)
+	stackMu.Lock()
+	defer stackMu.Unlock()
+	var buf []byte
 	for {
-		n := runtime.Stack(buf, true)
-		if n < len(buf) {
-			buf = buf[:n]
+		n := runtime.Stack(stackBuf, true)
+		if n < len(stackBuf) {
+			buf = stackBuf[:n]
 			break
 		}
-		buf = make([]byte, 2*len(buf))
+		stackBuf = make([]byte, 2*len(stackBuf))
 	}
 	cnt := 0
 	var stacks []string
